@@ -418,6 +418,62 @@ func famForge(r *Rng, o *Out, tier string) {
 			o.emit("(const sound)", "sound")
 		}
 	}
+	// issuer keys of every length (the API takes any byte string; HMAC hashes keys longer than its block): a token
+	// verifies under the key it was minted with and under no sibling key - one sharing the first 32 bytes and
+	// differing later, the 32-byte prefix alone, one differing in its first byte
+	for _, L := range []int{1, 16, 31, 33, 54, 64, 65, 100, 200} {
+		K := r.Bytes(L)
+		K[L-1] |= 1 // (a key and the same key with zero bytes appended are one HMAC key below the block size)
+		mint := func(k []byte) []byte {
+			t, err := macaroon.New(r.Bytes(8), "https://api.fly.io/v1", k)
+			if err != nil {
+				return nil
+			}
+			t.Add(r.plainCav(1))
+			return mustEnc(t)
+		}
+		tokK := mint(K)
+		if tokK == nil {
+			continue
+		}
+		o.count(fmt.Sprintf("keylen.%d", L))
+		if obs := emitVerify(o, K, tokK, nil, nil); obs != "err:unmodelled" {
+			if strings.HasPrefix(obs, "ok") {
+				o.emit("(const sound)", "sound")
+			} else {
+				o.emit("(const sound)", fmt.Sprintf("own-token-rejected:keylen=%d", L))
+			}
+		}
+		var sibs [][]byte
+		tailFlip := append([]byte{}, K...)
+		tailFlip[L-1] ^= 0x5a
+		headFlip := append([]byte{}, K...)
+		headFlip[0] ^= 0x80
+		sibs = append(sibs, tailFlip, headFlip)
+		if L > 32 {
+			sibs = append(sibs, append([]byte{}, K[:32]...))
+			mid := append([]byte{}, K...)
+			mid[32] ^= 0x01
+			sibs = append(sibs, mid)
+		}
+		for si, S := range sibs {
+			tokS := mint(S)
+			if tokS == nil {
+				continue
+			}
+			for _, tc := range []struct{ k, t []byte }{{K, tokS}, {S, tokK}} {
+				obs := emitVerify(o, tc.k, tc.t, nil, nil)
+				if obs == "err:unmodelled" {
+					continue
+				}
+				if strings.HasPrefix(obs, "ok") {
+					o.emit("(const sound)", fmt.Sprintf("forgery:accepted-under-a-sibling-key:keylen=%d,sibling=%d", L, si))
+				} else {
+					o.emit("(const sound)", "sound")
+				}
+			}
+		}
+	}
 	// the same protection for the DISCHARGES of a token with two third-party caveats: the first caveat's discharge is
 	// genuine, the second's has a caveat removed, reordered or altered (nonce and tail kept), or is signed under
 	// another key; presented in either order the token is refused - and the genuine pair returns every caveat
